@@ -26,14 +26,24 @@ Proof.
 Qed.
 
 Lemma R_loop_op min lhs lv o ts' rhs ts'' R :
-  min <= lvl o -> lreq o <= lv ->
+  min <= lvl o -> lreq o <= lv -> rhs_pattern o ts' = None ->
   ev (fun f => pexp f (rreq o) ts') (rhs, ts'') ->
   ev (fun f => ploop f min (Bin o lhs rhs) (lvl o) ts'') R ->
   ev (fun f => ploop f min lhs lv (TOp o :: ts')) R.
 Proof.
-  intros L1 L2 [n1 H1] [n2 H2]. ev_intro (S (max n1 n2)).
+  intros L1 L2 P [n1 H1] [n2 H2]. ev_intro (S (max n1 n2)).
   apply Nat.leb_le in L1. apply Nat.leb_le in L2. rewrite L1, L2. cbn [andb].
-  rewrite H1 by lia. apply H2. lia.
+  rewrite P. rewrite H1 by lia. apply H2. lia.
+Qed.
+
+Lemma R_loop_pat min lhs lv o ts' rhs ts'' R :
+  min <= lvl o -> lreq o <= lv -> rhs_pattern o ts' = Some (rhs, ts'') ->
+  ev (fun f => ploop f min (Bin o lhs rhs) (lvl o) ts'') R ->
+  ev (fun f => ploop f min lhs lv (TOp o :: ts')) R.
+Proof.
+  intros L1 L2 P [n2 H2]. ev_intro (S n2).
+  apply Nat.leb_le in L1. apply Nat.leb_le in L2. rewrite L1, L2. cbn [andb].
+  rewrite P. apply H2. lia.
 Qed.
 
 Lemma R_unary_not ts' e lv r :
@@ -124,7 +134,9 @@ Lemma pr_eq req x : pr req x = if Nat.ltb (level x) req then TLP :: raw x ++ [TR
 Proof. reflexivity. Qed.
 
 (* unfolding of raw on each constructor in terms of pr *)
-Lemma raw_bin o l r : raw (Bin o l r) = pr (lreq o) l ++ TOp o :: pr (rreq o) r.
+Definition rhs_text (o : binop) (r : expr) : list tk :=
+  if is_match o && is_concat r then raw r else pr (rreq o) r.
+Lemma raw_bin o l r : raw (Bin o l r) = pr (lreq o) l ++ TOp o :: rhs_text o r.
 Proof. reflexivity. Qed.
 Lemma raw_not x : raw (Not x) = TNot :: pr 8 x.
 Proof. reflexivity. Qed.
@@ -309,6 +321,58 @@ Proof.
   - intros _. exact N.
 Qed.
 
+(* ---- a pattern concatenation as the right operand of a match operator ---- *)
+
+Lemma concat_resume r : is_concat r = true -> forall tail,
+  exists s r0, raw r ++ tail = TAtom (ARegex s) :: r0 /\
+               pconcat (Atom (ARegex s)) r0 = pconcat r tail.
+Proof.
+  induction r as [a| | |o l IHl x _| |]; cbn [is_concat]; intros Hc tail; try discriminate.
+  - destruct a; try discriminate. exists s, tail. split; reflexivity.
+  - destruct o; try discriminate. apply Bool.andb_true_iff in Hc. destruct Hc as (Hl & Hx).
+    assert (Lv : Nat.ltb (level l) (lreq OPlus) = false).
+    { destruct l as [a0| | |o0 ? ?| |]; cbn [is_concat] in Hl; try discriminate.
+      - reflexivity.
+      - destruct o0; try discriminate. reflexivity. }
+    rewrite raw_bin, <- app_assoc. cbn [app]. rewrite pr_eq, Lv.
+    destruct (IHl Hl (TOp OPlus :: rhs_text OPlus x ++ tail)) as (s & r0 & E & P).
+    exists s, r0. split; [exact E|]. rewrite P.
+    unfold rhs_text. cbn [is_match andb]. rewrite pr_eq.
+    destruct x as [a0|y idx| | | |]; cbn [simple_part] in Hx; try discriminate.
+    + destruct a0; try discriminate. reflexivity.
+    + destruct idx; try discriminate. reflexivity.
+Qed.
+
+Lemma pconcat_stop acc rest :
+  match rest with TOp OPlus :: _ => False | _ => True end -> pconcat acc rest = (acc, rest).
+Proof.
+  intros H. destruct rest as [|[] r]; try reflexivity. destruct o; try reflexivity. contradiction.
+Qed.
+
+Lemma rhs_pattern_concat o r rest :
+  is_match o = true -> is_concat r = true ->
+  match rest with TOp OPlus :: _ => False | _ => True end ->
+  rhs_pattern o (raw r ++ rest) = Some (r, rest).
+Proof.
+  intros PM PC Hr. destruct (concat_resume r PC rest) as (s & r0 & E & P).
+  unfold rhs_pattern. rewrite PM, E, P. rewrite (pconcat_stop r rest Hr). reflexivity.
+Qed.
+
+Lemma rhs_pattern_none o r rest :
+  is_match o && is_concat r = false -> rhs_pattern o (pr (rreq o) r ++ rest) = None.
+Proof.
+  intros H. unfold rhs_pattern. destruct (is_match o) eqn:PM; [|reflexivity].
+  cbn [andb] in H. assert (Rq : rreq o = 10) by (unfold rreq; rewrite PM; reflexivity).
+  rewrite Rq, pr_eq. destruct (Nat.ltb_spec (level r) 10) as [Hlt|Hge]; [reflexivity|].
+  destruct r as [a|x idx|g args|o0 l0 r0|x|b x]; cbn [level] in Hge.
+  - destruct a; cbn [is_concat] in H; try discriminate; reflexivity.
+  - destruct idx; reflexivity.
+  - destruct args; reflexivity.
+  - pose proof (lvl_range o0). lia.
+  - lia.
+  - lia.
+Qed.
+
 Lemma main_bin o l r : main l -> main r -> main (Bin o l r).
 Proof.
   intros Ml Mr. pose proof (lvl_range o) as Ho. pose proof (lreq_ge o) as Hl. pose proof (rreq_gt o) as Hr.
@@ -317,10 +381,21 @@ Proof.
   rewrite raw_bin, <- app_assoc. cbn [app].
   (* what happens once the left operand is the loop's tree, at syntactic level lv *)
   assert (Step : forall lv, lreq o <= lv ->
-     ev (fun f => ploop f min l lv (TOp o :: pr (rreq o) r ++ rest)) R).
-  { intros lv Hlv. eapply R_loop_op; [exact Hmin|exact Hlv| |exact HL].
-    apply right_operand; [exact Mr|lia|exact C|].
-    destruct rest as [|[] r0]; auto. lia. }
+     ev (fun f => ploop f min l lv (TOp o :: rhs_text o r ++ rest)) R).
+  { intros lv Hlv. unfold rhs_text.
+    destruct (is_match o && is_concat r) eqn:PC.
+    - apply Bool.andb_true_iff in PC. destruct PC as (PM & PCc).
+      eapply R_loop_pat; [exact Hmin|exact Hlv| |exact HL].
+      apply rhs_pattern_concat; [exact PM|exact PCc|].
+      destruct rest as [|t0 r0]; [exact I|].
+      destruct t0 as [a0|x0|g0|ob| |b0|b1| | | | | ]; try exact I.
+      destruct ob; try exact I.
+      (* a following `+` would have level 6 > level of the match expression *)
+      destruct o; cbn in PM; try discriminate; cbn in F; lia.
+    - eapply R_loop_op; [exact Hmin|exact Hlv| | |exact HL].
+      + apply rhs_pattern_none. exact PC.
+      + apply right_operand; [exact Mr|lia|exact C|].
+        destruct rest as [|[] r0]; auto. lia. }
   rewrite pr_eq. destruct (Nat.ltb_spec (level l) (lreq o)) as [Hlt|Hge].
   - eapply R_pexp.
     + apply paren_unary_clean; [exact Ml|exact I].
@@ -459,7 +534,10 @@ Proof.
       (match ts with
        | TOp o :: ts' =>
            if Nat.leb min (lvl o) && Nat.leb (lreq o) lv then
-             match pexp (S f) (rreq o) ts' with
+             match (match rhs_pattern o ts' with
+                    | Some x => Some x
+                    | None => pexp (S f) (rreq o) ts'
+                    end) with
              | Some (rhs, ts'') => ploop (S f) min (Bin o l rhs) (lvl o) ts''
              | None => None
              end
@@ -468,6 +546,7 @@ Proof.
        end).
     destruct ts as [|[] ts']; try exact H.
     destruct (Nat.leb min (lvl o) && Nat.leb (lreq o) lv); [|exact H].
+    destruct (rhs_pattern o ts') as [[rhs0 ts0]|] eqn:P; [apply IH2, H|].
     destruct (pexp f (rreq o) ts') as [[rhs ts'']|] eqn:E; [|discriminate].
     rewrite (IH1 _ _ _ E). apply IH2, H.
   - intros ts r H. cbn [punary] in H.
@@ -553,9 +632,9 @@ Proof.
 Qed.
 
 (* an answer of the statement parser at some fuel is its answer from then on *)
-Lemma pstmt_stable f ts s : pstmt f ts = Some s -> evs ts s.
+Lemma pstmt_mono f f' ts s : f <= f' -> pstmt f ts = Some s -> pstmt f' ts = Some s.
 Proof.
-  intros H. exists f. intros f' Hf.
+  intros Hf H.
   assert (H' := H). unfold pstmt in H'.
   destruct (pexp f 1 ts) as [[e r]|] eqn:E1.
   - destruct r as [|t0 r0].
@@ -571,6 +650,9 @@ Proof.
     destruct r3; [|discriminate]. injection H' as <-.
     eapply pstmt_assign_stable; eassumption.
 Qed.
+
+Lemma pstmt_stable f ts s : pstmt f ts = Some s -> evs ts s.
+Proof. intros H. exists f. intros f' Hf. exact (pstmt_mono f f' ts s Hf H). Qed.
 
 (* whenever the fixed-fuel parser answers on the formatter's output, it answers
    with the tree that was formatted *)
